@@ -161,3 +161,50 @@ PROPS["C15"] = {
         "design_ref": "DESIGN.md §4 C15",
     },
 }
+
+
+def _c03_engine(*a, **k):
+    import c03
+    return c03.engine(*a, **k)
+
+
+def _c03_gen(tier):
+    import sys, os
+    sys.path.insert(0, os.path.join(os.path.dirname(os.path.dirname(os.path.abspath(__file__))), "c03"))
+    import gen_kani
+    return {"core/engine/src/vm/opcode/mod.rs::c03a": gen_kani.generate(tier).encode()}
+
+
+PROPS["C03"] = {
+    "level": "model_checking",
+    "kani": [{"package": "boa_engine", "flags": ENGINE_FLAGS, "tags": ["c03r"], "generate": _c03_gen,
+              "timeout": {"quick": 600, "thorough": 1200}}],
+    "engines": [_c03_engine],
+    "assumptions": COMMON_ASSUME + [
+        "C03(b): the PROGRAM quantifier is a corpus (JS literals of the repo's tests + deterministic grammar enumeration + VERIF_SEED-seeded samples), not symbolic; the solver's quantifier is 'all CFG paths of each compiled body'",
+        "C03(b): stack effects of opcodes (c03/model.py DELTA) are a hand model of the VM handlers, kept in sync with the handler sources by a source scan on every run",
+        "C03(b): every instruction inside a handler range may throw (conservative exceptional edges); at handler entry environments are truncated to env_fp+environment_count and the binding-reference stack is modelled as at the range start (the VM does not truncate it: entries pushed in the range stay below later pushes)",
+        "C03(b): entry environment depth is a free constant base in [0,2] per body (function-scope prologue is pushed by the VM, not by bytecode)",
+    ],
+    "outside_claim": [
+        "programs not in the corpus",
+        "the VM handlers' real stack effects (trusted DELTA table)",
+        "value-stack (argument) depth and the iterator stack",
+        "operands listed under coverage.unchecked_operands",
+    ],
+    "trusted_base": ["z3 4.8.12 cross-checked with cvc5 1.0", "c03/model.py (DELTA, control-flow classes, operand->table map)"],
+    "manifest": {
+        "engine": "kani+smt",
+        "text": "Two layers. (a) Bounded model checking (Kani) of the bytecode encoding layer generated from the current generate_opcodes! "
+                "list: emit_X(args) -> next_instruction round trip for every operand shape, jump patching, register allocator "
+                "one-step invariants. (b) For every body compiled by the REAL parser/compiler from a corpus, one SMT instance "
+                "(z3, re-decided by cvc5) that is satisfiable iff all structural obligations hold (decode closure, operands inside "
+                "their tables and of the right constant kind, jump/handler targets at instruction starts) AND an environment-depth "
+                "and binding-reference-depth assignment exists that is consistent on EVERY control-flow path including exceptional "
+                "edges: the all-paths quantifier a test cannot reach. An unsat core names the conflicting edges.",
+        "note": "Program quantifier = corpus (stated). Trusted: hand model of handler stack effects (source-synced), z3/cvc5. "
+                "Outside: value-stack and iterator-stack depth, programs outside the corpus.",
+        "technique": "SMT (z3 + cvc5) all-paths depth-consistency constraint system per compiled body; Kani/CBMC for the opcode encoding layer",
+        "design_ref": "DESIGN.md §2.2, §4 C03",
+    },
+}
